@@ -101,6 +101,14 @@ func (vc *VC) callValue(act *Act, st *State, common *ssa.CallCommon, fnVal Val, 
 					}
 					res = vc.applyContract(act, st, fc, names, args, paramTypes(callee), resT, sig, site, "call "+key)
 				}
+			} else if ic := vc.eng.ifaceContractOfImpl(callee); ic != nil {
+				names := ic.ParamNames
+				if len(names) == 0 {
+					for k := range args {
+						names = append(names, fmt.Sprintf("arg%d", k))
+					}
+				}
+				res = vc.applyContract(act, st, ic, names, args, paramTypes(callee), resT, sig, site, "call "+key)
 			} else if ec := vc.eng.externFor(callee); ec != nil && ec.CallbackLoop {
 				res = vc.callbackLoop(act, st, callee, ec, args, argTypes, resT, site)
 				vc.used["extern:"+callee.String()] = true
@@ -143,6 +151,18 @@ func (vc *VC) callValue(act *Act, st *State, common *ssa.CallCommon, fnVal Val, 
 		}
 	}
 	name := "dynamic"
+	if _, isParam := common.Value.(*ssa.Parameter); !isParam {
+		if fc, ok := vc.eng.contracts.Externs["fnfield "+vc.dynName(common.Value)]; ok {
+			names := fc.ParamNames
+			if len(names) == 0 {
+				for k := range args {
+					names = append(names, fmt.Sprintf("arg%d", k))
+				}
+			}
+			vc.used["function-field contract "+fc.Key] = true
+			return vc.applyContract(act, st, fc, names, args, argTypes, resT, sig, site, "fnfield "+vc.dynName(common.Value))
+		}
+	}
 	if p, ok := common.Value.(*ssa.Parameter); ok {
 		name = "param " + p.Name()
 		vc.siteCheck(act, st, "callparam "+p.Name(), site, common, args, argTypes, nil, nil)
@@ -639,6 +659,8 @@ func refOf(v Val) string {
 		return x.ref
 	case IntV:
 		return x.t
+	case IfaceV:
+		return x.box
 	}
 	specErr("value has no object reference")
 	return ""
